@@ -370,6 +370,12 @@ def c02():
     # shrink / empty a file, let other files take the space (same session or after a remount), write it again
     reuse = [gen.reuse_program(rng, "reuse-%s-%d" % (k, i), gen.K(k), CS[k]) for k in ("K1", "K1b", "K2", "K5") for i in range(scale(8, 80))]
     res.append(("io-reuse", core.campaign("io-reuse", reuse, wd)))
+    # files in the highest cluster numbers of the largest FAT12 / FAT16 volumes
+    top = []
+    for i in range(scale(6, 60)):
+        vol, cs = gen.top_clusters_volume(rng, [12, 16][i % 2])
+        top.append(gen.io_program(rng, "top-%d" % i, {"vol": vol}, cs, 40, n_files=3, max_clusters=4))
+    res.append(("io-top", core.campaign("io-top", top, wd)))
     # the device as a std::io object behind StdIoWrapper (half of the programs with short transfers)
     std = fam_io("C02", ["K1b", "K3", "K5"], scale(10, 100), 50, salt=11)
     for i, p in enumerate(std):
@@ -476,7 +482,9 @@ def c05():
     core.finish("C05", LEVEL, res, mc_layer_b(wd), t0,
                 "fill-to-full / delete-all cycles on tiny volumes plus mixed programs with statistics probes; TLC compares the reported count with the "
                 "table of the raw image and judges every NotEnoughSpace against the pre-state",
-                ASSUME_TRACE, extra_cov={"inductive_invariant": mc_fat_inductive(wd)})
+                ASSUME_TRACE, extra_cov={"inductive_invariant": mc_fat_inductive(wd)},
+                # "removing or truncating gives back all of its clusters": a cluster that stays allocated without an owner is C05's too
+                extra_prefixes=("C00.", "C03.lost"))
 
 
 def status_off(kname):
@@ -536,6 +544,10 @@ def c12():
             # status byte found at mount: clean, dirty, io-error, reserved high bits
             st = [0, 0, 1, 2, 0xF0, 0xF1, 0x80, 3][i % 8]
             cfg = with_status(gen.K(kname), kname, st) if st else gen.K(kname)
+            if i % 7 == 3:
+                # (a boot sector without the 0x29 extended signature, as old or other formatters write it: the status byte is still there)
+                cfg = json.loads(json.dumps(cfg))
+                cfg["vol"].setdefault("patch", []).append([66 if kname.startswith("K5") else 38, [rng.choice([0x28, 0x00])]])
             if kname == "K5" and i % 5 == 4:
                 # (FAT32: table entry 1 carries another implementation's clean-shutdown / no-error bits, cleared by it)
                 cfg = json.loads(json.dumps(cfg))
@@ -746,6 +758,11 @@ def fam_foreign(prop, n_per_ft, salt=0, n_ops=12):
             progs.append(gen.foreign_program(rng, "foreign-%d-%d" % (ft, i), vol, cs, oem, n_ops=n_ops))
     for i in range(max(4, n_per_ft // 3)):
         progs.append(gen.foreign_high_program(rng, "foreign-high-%d" % i))
+    # tables whose padding entries look free (zero), the last clusters used, the next-free hint at the end: the scan for a free cluster
+    # runs into the end of the table
+    for i in range(max(6, n_per_ft // 3)):
+        vol, cs = gen.end_of_table_volume(rng, [32, 12, 16][i % 3])
+        progs.append(gen.fill_program(rng, "foreign-eot-%d" % i, {"vol": vol}, cs, rounds=1, chunk_clusters=(1, 2), use_dirs=(i % 2 == 0)))
     return progs
 
 
